@@ -75,6 +75,51 @@ pub fn c15_value(ctx: &mut Ctx, v: &MapVal) {
     Ok(Err(e)) => fail(ctx, "to_writer_error", format!("{e}")),
     Err(e) => fail(ctx, "to_writer_panic", e),
   }
+  // the same document through writers that accept only a few bytes per call (allowed by the Write
+  // contract) and through one that is full after half of it
+  {
+    struct Short {
+      per: usize,
+      cap: usize,
+      got: Vec<u8>,
+    }
+    impl std::io::Write for Short {
+      fn write(&mut self, buf: &[u8]) -> std::io::Result<usize> {
+        if self.got.len() >= self.cap {
+          return Ok(0); // full: write_all turns this into WriteZero
+        }
+        let n = buf.len().min(self.per).min(self.cap - self.got.len());
+        self.got.extend_from_slice(&buf[..n]);
+        Ok(n)
+      }
+      fn flush(&mut self) -> std::io::Result<()> {
+        Ok(())
+      }
+    }
+    for per in [1usize, 5] {
+      let mut w = Short { per, cap: usize::MAX, got: Vec::new() };
+      match guarded(|| m.clone().to_writer(&mut w)) {
+        Ok(Ok(())) => {
+          if w.got != json_text.as_bytes() {
+            fail(ctx, "to_writer_short_writes", format!("a writer taking {per} byte(s) per call received {} of {} bytes and to_writer returned Ok", w.got.len(), json_text.len()));
+          }
+        }
+        Ok(Err(e)) => fail(ctx, "to_writer_short_writes_error", format!("{e}")),
+        Err(e) => fail(ctx, "to_writer_panic", e),
+      }
+    }
+    let mut w = Short { per: usize::MAX, cap: json_text.len() / 2, got: Vec::new() };
+    match guarded(|| m.clone().to_writer(&mut w)) {
+      Ok(Ok(())) => fail(ctx, "to_writer_swallows_a_full_writer", format!("the writer took {} of {} bytes, to_writer returned Ok", w.got.len(), json_text.len())),
+      Ok(Err(_)) => {
+        if !json_text.as_bytes().starts_with(&w.got) {
+          fail(ctx, "to_writer_not_a_prefix", format!("{:?}", String::from_utf8_lossy(&w.got)));
+        }
+      }
+      Err(e) => fail(ctx, "to_writer_panic", e),
+    }
+    ctx.transitions += 3;
+  }
   // an independent parser accepts it as a version-3 map with the same fields
   match serde_json::from_str::<Value>(&json_text) {
     Err(e) => fail(ctx, "invalid_json", format!("{json_text:?}: {e}")),
